@@ -242,7 +242,7 @@ def check_sparse(ctx):
     # the coefficient enters the chain exactly once
     chain_name = None
     for s in tl.body:
-        if isinstance(s, ast.Assign) and isinstance(s.value, ast.List) and isinstance(s.targets[0], ast.Name) and any(isinstance(x, ast.AugAssign) and norm(x.target) == s.targets[0].id for x in ast.walk(tl)):
+        if isinstance(s, ast.Assign) and isinstance(s.value, ast.List) and isinstance(s.targets[0], ast.Name) and any((isinstance(x, ast.AugAssign) and norm(x.target) == s.targets[0].id) or (isinstance(x, ast.Call) and isinstance(x.func, ast.Attribute) and x.func.attr in ("append", "extend") and norm(x.func.value) == s.targets[0].id) for x in ast.walk(tl)):
             chain_name = s.targets[0].id
             chain_init = s.value
     if chain_name is None:
@@ -289,7 +289,8 @@ def check_sparse(ctx):
     ok = isinstance(pm, ast.Dict) and {(norm(k).strip("'\""), norm(v)) for k, v in zip(pm.keys, pm.values)} == {("I", "identity_csc"), ("X", "pauli_x_csc"), ("Y", "pauli_y_csc"), ("Z", "pauli_z_csc")}
     ctx.check(ok, R3, f"{SP}:pauli_matrix_map", "letters map to their own matrices", "pauli_matrix_map no longer maps each letter to its own matrix", f"{mod.relpath}:1")
     # triplets: three appends per term, same order
-    appends = [c for c in ast.walk(tl) if isinstance(c, ast.Call) and isinstance(c.func, ast.Attribute) and c.func.attr == "append"]
+    outer_lists = {s_.targets[0].id if isinstance(s_, ast.Assign) else s_.target.id for s_ in fi.node.body if isinstance(s_, (ast.Assign, ast.AnnAssign)) and s_.value is not None and isinstance(s_.value, ast.List) and not s_.value.elts and isinstance(s_.targets[0] if isinstance(s_, ast.Assign) else s_.target, ast.Name)}
+    appends = [c.value for c in tl.body if isinstance(c, ast.Expr) and isinstance(c.value, ast.Call) and isinstance(c.value.func, ast.Attribute) and c.value.func.attr == "append" and norm(c.value.func.value) in outer_lists]
     ctx.check(len(appends) == 3 and len({norm(c.func.value) for c in appends}) == 3, R3, fi.key + ":triplets", "each term appends its values, rows and columns", "a term does not contribute exactly one (values, rows, columns) triple", fi)
     # empty sum
     empties = [s for s in fi.node.body if isinstance(s, ast.If) and norm(s.test).startswith("not ") and any(isinstance(x, ast.Return) for x in s.body)]
